@@ -18,8 +18,13 @@ class Facts:
     """The compiler's view of the crate.  Lookups raise AnchorMissing (-> violation)."""
 
     def __init__(self, data, label="dev"):
+        if not os.environ.get("VERIF_NO_INLINE") and "inlined" not in data:
+            from . import inline
+            data = inline.apply(data)
         self.d = data
         self.label = label
+        self.inlined = data.get("inlined", {})
+        self.inline_notes = data.get("inline_notes", [])
         self.fns = {}
         for f in data["fns"]:
             self.fns[f["path"]] = f
@@ -37,8 +42,9 @@ class Facts:
         return path in self.fns
 
     def closures_of(self, path):
-        pre = path + "::{closure#"
-        return [f for p, f in self.fns.items() if p.startswith(pre)]
+        """closures written in `path`, and in helpers that were expanded into it (rules/inline.py)"""
+        pres = [path + "::{closure#"] + [h + "::{closure#" for h, callers in self.inlined.items() if path in callers]
+        return [f for p, f in self.fns.items() if p.startswith(tuple(pres))]
 
     def adt(self, path):
         a = self.adts.get(path)
